@@ -185,6 +185,7 @@ class BaseProtoServer(object):
   def _reply(self, conn, req, data, label, payload=None):
     act = self.policy(self, conn, req) or {}
     req['action'] = {k: v for k, v in act.items() if k != 'chunks'}
+    req['chunk_delay'] = sum(d_ for _n, d_ in (act.get('chunks') or ()))      # the last byte leaves that much after the first
     if act.get('mangle') and payload is not None:
       # a well-framed reply whose Thrift payload is not what the binary protocol expects
       bad = mangle_payload(payload, act['mangle'])
